@@ -114,7 +114,7 @@ Definition lstep_of (h : heap) (o : dop) : lstep * heap :=
   | DStatic o' => (LStatic o', h)
   | DSetLink x f v => let h' := set_links h x f v in (LMut h', h')
   | DSetItems c v _ _ _ => let h' := set_items h c v in (LMut h', h')
-  | DAddTrait x f v => let h' := add_trait_h h x f v in (LMut h', h')
+  | DAddTrait x f v => if has_trait h x f then (LMut h, h) else let h' := add_trait_h h x f v in (LMut h', h')
   end.
 Fixpoint lhist_of (h : heap) (hist : list (dop * iobs)) : list (lstep * iobs) :=
   match hist with
